@@ -165,6 +165,19 @@ PROPS = {
                 "model; inputs inside the recorded class EofInsideContainer are reported as KNOWN-FINDING; distinct = distinct inputs",
         "assumptions": STD_ASSUME_PURE + ["stack overflow on nesting depth ~10^4+ is an abort, not a Rust panic, and is outside the model"],
     },
+    "C18": {
+        "lean_modules": ["RdestModel.Props.C18"],
+        "cases": {"quick": 2500, "thorough": 40000},
+        "rule": "hashes: random, drawn from {NUL & % + = space # ? / 0x7f 0x80 0xff * ~ quotes}, one byte value repeated or a run of 20 consecutive "
+                "values (all 256 values occur), plain alphanumerics with one random byte; announce URLs = 5 scheme/host forms x 12 suffixes (no path, "
+                "paths, one or several query pairs, empty query, escaped and '+' query values); url = create_url (hook) compared with the model and "
+                "with the oracle 'base unchanged, decoded query pairs = announce pairs then info_hash = the 20 bytes'; every 25th case (20th in the "
+                "thorough tier) req = the real TrackerClient::run against a loopback HTTP listener: request target and Host header compared with "
+                "the model's requestUrl (incl. peer_id, port = PORT, left = total length) and the same oracle; distinct = distinct argument lines",
+        "assumptions": STD_ASSUME_PURE + ["the url and reqwest crates (URL parsing, extend_pairs, HTTP/1.1 request line) are outside the model; the loopback "
+                                           "requests observe them for the generated announce forms",
+                                           "announce URLs without fragment ('#') and with a syntactically valid query"],
+    },
     "C20": {
         "lean_modules": ["RdestModel.Props.C20"],
         "cases": {"quick": 400, "thorough": 12000},
